@@ -169,6 +169,9 @@ def run(ctx, env):
     ctx.rule("R2.5", "the tail is the version parser's own nom remainder: ParsedNetflow::new(ok(X::parse(packet)).0, NetflowPacket::X(ok(..).1)); parse_bytes feeds back exactly parsed.remaining")
     ctx.rule("R2.6", "set/message body length = header.length saturating-minus the wire size of the enclosing header")
     ctx.rule("R2.7", "an empty buffer adds no element")
+    ctx.rule("R2.8", "no silent consumption: in every hand-written parser (crate function / closure returning (remaining, value), not generated by nom-derive) each parser application on the chain of the returned remainder contributes the value it decoded to the result (returned, stored in a collection, or parsed further) — bytes cannot be consumed without being accounted for by a reported element")
+    from . import consume
+    consume.rule(ctx, prog, an, "R2.8", lambda b: True, floor=30)
     body = entry_body(ctx, prog, "R2.1")
     if body is None:
         return
@@ -299,6 +302,31 @@ def classify_cond(an, body, e):
     return "other", False, "unrecognised branch condition in parse_bytes (fail closed): %s" % canon(e0)[:300]
 
 
+def packet_mutations(prog, wrapper_path, packet_adt):
+    """Assignments into a part of a decoded packet value (a local of the packet's type or of a type it contains,
+    or through a `&mut` to one) inside a version wrapper or its closures."""
+    inner_tys = set([packet_adt])
+    # the packet's component ADTs (header, record / flowset types) one level down
+    adt = prog.adts.get(packet_adt)
+    mod = packet_adt.rsplit("::", 1)[0] + "::"
+    out = []
+    for p, wb in prog.bodies.items():
+        if not (p == wrapper_path or p.startswith(wrapper_path + "::{closure")):
+            continue
+        for blk, i, st in wb.stmts():
+            if st["k"] != "assign" or not st["place"].get("p"):
+                continue
+            ty = wb.local_ty(st["place"]["l"]).replace("&mut ", "").replace("&", "").strip()
+            # tuple / closure-argument locals holding the packet: `(&[u8], V5)`
+            if ty == packet_adt or ty.startswith(mod) or ("(" in ty and packet_adt in ty):
+                if any(e["k"] == "field" for e in st["place"]["p"]) and not ty.endswith("Parser"):
+                    # writes that build a fresh aggregate field by field are assignments to a local without a
+                    # previous whole-value definition coming from the parser: only flag locals that also hold the
+                    # parser's result, i.e. tuple/closure parameters and moved packet values
+                    out.append((wb, st))
+    return out
+
+
 def wrappers_rule(ctx, prog, an):
     """R2.2/R2.5 on the four version wrappers (X::Parser::parse).  Evaluated on the helper-inlined return value, so a
     private constructor / error-builder helper may be extracted or inlined freely."""
@@ -329,6 +357,9 @@ def wrappers_rule(ctx, prog, an):
                 why = "Ok = ParsedNetflow{remaining: copy(%s), result: %s}" % (canon(rem)[:160], canon(pkt)[:160])
         n += 1
         ctx.ob("R2.5", path, "tail-is-parser-remainder", good, why, site=site(b.span))
+        for (wb, st) in packet_mutations(prog, path, inner[ver][0]):
+            ctx.ob("R2.5", path, "decoded-packet-not-modified", False,
+                   "the decoded %s is modified after decoding (assignment into %s at %s): what is reported is no longer what the parser read" % (inner[ver][1], wb.path, site(st["span"])), site=site(st["span"]))
         # Err side
         errv = peel(an.expand(an.interp._through("err", ret)))
         good = False
